@@ -104,6 +104,7 @@ STRUCTS = {
     # two dimensions of the same label kind and size: their labels may coincide
     'a_xw-b_x': [('a', ['x', 'w']), ('b', ['x'])],
     'a_wx-b_w': [('a', ['w', 'x']), ('b', ['w'])],
+    'a_xy-b_xw': [('a', ['x', 'y']), ('b', ['x', 'w'])],
 }
 
 
